@@ -3,6 +3,7 @@
 from builtins import map
 from builtins import range
 import logging
+import os
 import warnings
 from collections import namedtuple
 from builtins import int as int_types
@@ -1174,6 +1175,13 @@ def asm_resolve_final(mnemo, asmcfg, dst_interval=None):
     return patches
 
 
+# Verification seam, off unless the environment variable MIASM_VERIF is "1":
+# `_verif_pick_block(set of AsmBlock) -> AsmBlock` decides the processing order
+# of disasmEngine.apply_splitting's work list (a set of identity-hashed blocks)
+_VERIF_HOOKS = os.environ.get("MIASM_VERIF") == "1"
+_verif_pick_block = None
+
+
 class disasmEngine(object):
 
     """Disassembly engine, taking care of disassembler options and mutli-block
@@ -1426,6 +1434,12 @@ class disasmEngine(object):
         while todo:
             # Find a block with a destination inside another one
             cur_block = todo.pop()
+            if _VERIF_HOOKS and _verif_pick_block is not None:
+                # Verification seam (MIASM_VERIF=1 only): let a simulator choose
+                # which pending block is processed next
+                todo.add(cur_block)
+                cur_block = _verif_pick_block(todo)
+                todo.discard(cur_block)
             range_start, range_stop = cur_block.get_range()
 
             for off in block_dst:
